@@ -148,7 +148,7 @@ def check(tier: str) -> int:
     plans = [("MC_Exprs", "exprs", {}, 1, 2), ("MC_Flow", "flow", {}, 1, 2), ("MC_Loops", "loops-single", {"Variant": '"single"'}, 1, 1),
              ("MC_Scopes", "scopes", {}, 1, 2), ("MC_Trim", "trim-markers", {"Variant": '"markers"'}, 2, 3),
              ("MC_Trim", "trim-blank", {"Variant": '"blank"'}, 2, 3), ("MC_Bool", "bool", {"Variant": '"ops"'}, 1, 1), ("MC_Bool", "bool-trees", {"Variant": '"trees"'}, 1, 1),
-             ("MC_Confused", "confused", {}, 1, 1), ("MC_Sites", "sites", {}, 2, 3), ("MC_Cycles", "cycles", {}, 3, 4),
+             ("MC_Confused", "confused", {}, 1, 1), ("MC_Sites", "sites", {}, 2, 3), ("MC_Cycles", "cycles", {}, 3, 4), ("MC_Short", "short", {}, 2, 2),
              ("MC_Layers", "layers-x", {"Name": '"x"'}, 4, 4)]
     for module, name, consts, q, t in plans:
         r = gen.run_focus(chk, module, name, max_top=t if tier == "thorough" else q, extra_constants=consts,
